@@ -303,7 +303,7 @@ VOLUME = _volume_cases()
 # functions) x every printing path: nothing may reach the host, something must reach the record
 VALUE_SNIPPETS = ["5", "1 3/", "2√", "ki", "ke", "kg", "2√1 3/\"", "`str`", "¤", "⟨⟩", "⟨1|`a`|⟨2√⟩⟩", "3ɾ", "3ɾƛ2√;", "3ɾ2√+",
                   "λ1;", "⟨λ2;|3⟩", "⟨λ`x`,2;⟩", "⟨3ɾƛ…;|4⟩", "3ɾƛ…;w", "⟨λ`y`₴5;|⟨λ7,8;⟩⟩", "λ`z`,9;", "3ɾƛ`p`₴;", "1u/", "2 0.5e", "5∆s", "3∆L", "1°2", "5N√", "kn", "3ɾ:Z", "Þ∞3Ẏ", "5 7ḋ", "`a`3*", "10 3%"]
-PRINTERS = [(",", ""), ("₴", "O"), ("…_", "O"), ("¨,", "O"), ("¨…_", "O"), ("", ""), ("", "j"), ("", "W"), ("", "s"), ("w,", ""),
+PRINTERS = [(",", ""), (",Q", ""), (":,Q,", ""), ("₴", "O"), ("…_", "O"), ("¨,", "O"), ("¨…_", "O"), ("", ""), ("", "j"), ("", "W"), ("", "s"), ("w,", ""),
             ("wƛ;,", ""), (":,,", ""), ("S,", ""), ("q,", "")]
 
 
@@ -391,9 +391,10 @@ def run_unit(unit):
                 if rec[1]:
                     c["type_print_recorded"] = c.get("type_print_recorded", 0) + 1
                 # "everything it prints is collected": the record is what the same program prints offline
-                if not got["error"] and not rec[2]:
+                quits = str(got["error"]).startswith("SystemExit")  # the quit element: what was printed before counts
+                if (not got["error"] or quits) and not rec[2]:
                     off = run_online(text, [], flags, online=False, timeout=10)
-                    if not off["error"]:
+                    if str(off["error"]) == str(got["error"]):
                         c["record_vs_offline_compared"] = c.get("record_vs_offline_compared", 0) + 1
                         import re as _re
 
